@@ -3,23 +3,34 @@
    Full statement (the property): if either call returns an error then the
    signaling state and the four pending/current descriptions are what they
    were and no signaling-state-change event is emitted, whatever the error.
-   The code as it is violates it on both sides: c03_remote_full_refuted (one
-   witness per error class raised after the transition: c03_remote_classes_
-   refuted) and c03_local_full_refuted.  Proved: every error raised before the
-   transition - closed connection, JSEP 5.4 refusal, unparsable SDP, unknown
-   type, description differing from the last created offer/answer, invalid
-   edge - leaves the whole negotiation record (state, four descriptions, last
-   offer/answer, event log) unchanged (c03_local_partial, c03_remote_partial);
-   and the error class alone tells which of the two happened
-   (c03_error_kinds). *)
+   After "fix: validate the remote description before applying it" the checks
+   of SetRemoteDescription that only read the parsed description (mid, ICE
+   ufrag/pwd, candidate lines, fingerprint) run before setDescription; with
+   them every error raised before the state is stored - closed connection,
+   JSEP 5.4 refusal, unparsable SDP, unknown type, description differing from
+   the last created offer/answer, invalid edge, and now those six - leaves the
+   whole negotiation record (state, four descriptions, last offer/answer, event
+   log) unchanged (c03_local_partial, c03_remote_partial).
+   What is left of the violation: the steps that run after setDescription and
+   can fail - remote: MediaEngine.updateFromRemoteDescription (Codec),
+   RTPTransceiver.Stop for an inactive section (Stop), ICETransport.
+   AddRemoteCandidate (AddCandidate), startRTPSenders (Send); local:
+   startRTPSenders (Send), ICEGatherer.Gather (Gather).  The full statement is
+   refuted on both sides with one witness per class (c03_remote_full_refuted,
+   c03_remote_classes_refuted, c03_local_full_refuted,
+   c03_local_classes_refuted), and an error comes with the record changed IF
+   AND ONLY IF its class is one of these (c03_error_after_transition_iff,
+   c03_post_classes_by_side): the partial theorems and the refutations
+   together cover every error class of the model. *)
 From Coq Require Import List Bool NArith String.
 Import ListNotations.
 From Verif Require Import Common.Base Model.Signaling Proofs.Signaling Proofs.SignalingHist
   Proofs.SignalingAtomic.
 
-(* pre_error e  :=  e is InvalidState, InvalidModification, Parse, Type or Operation
-   post_error e :=  e is Codec, NoMid, Candidate, NoUfrag, NoPwd, NoFingerprint,
-                    BadFingerprint or Send *)
+(* pre_error e  :=  e is one of pre_classes  = InvalidState, InvalidModification, Parse,
+                    Type, Operation, NoMid, Candidate, NoUfrag, NoPwd, NoFingerprint,
+                    BadFingerprint
+   post_error e :=  e is one of post_classes = Codec, Stop, AddCandidate, Send, Gather *)
 
 Theorem c03_local_partial : forall ops d n' e,
   step (run ops) (OSetLocal d) = (n', Err e) -> pre_error e -> n' = run ops.
@@ -42,16 +53,48 @@ Theorem c03_error_kinds : forall ops sd d n' e,
 Proof. intros ops; exact (set_step_error_kinds as_is (run ops)). Qed.
 Print Assumptions c03_error_kinds.
 
+(* an error is returned with the negotiation record changed if and only if it
+   comes from one of the listed post-transition classes *)
+Theorem c03_error_after_transition_iff : forall ops sd d n' e,
+  step (run ops) (set_op sd d) = (n', Err e) ->
+  (n' <> run ops <-> In e [ECodec; EStop; EAddCand; ESend; EGather]).
+Proof. intros ops; exact (set_step_error_after_iff as_is (run ops)). Qed.
+Print Assumptions c03_error_after_transition_iff.
+
+(* which of them each side can raise *)
+Theorem c03_post_classes_by_side : forall ops d n' e,
+  (step (run ops) (OSetLocal d) = (n', Err e) -> n' <> run ops ->
+   e = ESend \/ e = EGather) /\
+  (step (run ops) (OSetRemote d) = (n', Err e) -> n' <> run ops ->
+   e = ECodec \/ e = EStop \/ e = EAddCand \/ e = ESend).
+Proof.
+  intros ops d n' e; split; intros H Hne.
+  - apply (set_local_post_classes as_is (run ops) d n' e H).
+    apply (set_step_error_after_iff as_is (run ops) Local d n' e H). exact Hne.
+  - apply (set_remote_post_classes as_is (run ops) d n' e H).
+    apply (set_step_error_after_iff as_is (run ops) Remote d n' e H). exact Hne.
+Qed.
+Print Assumptions c03_post_classes_by_side.
+
 (* ---- refutations of the full statement ---- *)
+(* flags: media, all-mid, candidates, ufrag, pwd, fingerprint, two-token
+   fingerprint, senders; the rest good *)
 Definition fl (m a c u p f f2 s : bool) : dflags :=
   {| parses := true; codecs_ok := true; all_mid := a; cands_ok := c; has_ufrag := u;
-     has_pwd := p; has_fp := f; fp_two := f2; send_ok := s; has_media := m |}.
+     has_pwd := p; has_fp := f; fp_two := f2; send_ok := s; has_media := m;
+     addcand_ok := true; gather_ok := true; stop_ok := true |}.
+(* codecs, add-candidate, gather, stop; the rest good *)
+Definition fl2 (c a g s : bool) : dflags :=
+  {| parses := true; codecs_ok := c; all_mid := true; cands_ok := true; has_ufrag := true;
+     has_pwd := true; has_fp := true; fp_two := true; send_ok := true; has_media := true;
+     addcand_ok := a; gather_ok := g; stop_ok := s |}.
 Definition dsf (ty : sdptype) (id : N) (f : dflags) : desc :=
   {| d_ty := ty; d_txt := {| t_id := id; t_fl := f |} |}.
 Definition ds (ty : sdptype) (id : N) : desc := dsf ty id good_flags.
 
-(* remote: stable + an offer without ice-ufrag: error, yet have-remote-offer,
-   the offer pending, one event *)
+(* remote: stable + an offer with a media section whose formats
+   updateFromRemoteDescription cannot read: error, yet have-remote-offer, the
+   offer pending, one event *)
 Theorem c03_remote_full_refuted :
   exists ops d n' e,
     step (run ops) (OSetRemote d) = (n', Err e) /\
@@ -59,7 +102,7 @@ Theorem c03_remote_full_refuted :
     pendR (run ops) = None /\ pendR n' = Some d /\
     events (run ops) = [] /\ events n' = [HaveRemoteOffer].
 Proof.
-  exists [], (dsf Offer 19 (fl true true true false true true true true)).
+  exists [], (dsf Offer 24 (fl2 false true true true)).
   eexists; eexists. repeat split; reflexivity.
 Qed.
 Print Assumptions c03_remote_full_refuted.
@@ -69,22 +112,16 @@ Print Assumptions c03_remote_full_refuted.
 Theorem c03_remote_classes_refuted :
   Forall (fun e => exists ops d n',
             step (run ops) (OSetRemote d) = (n', Err e) /\ st n' <> st (run ops))
-         [ENoMid; ECandidate; ENoUfrag; ENoPwd; ENoFingerprint; EBadFingerprint; ESend].
+         [ECodec; EStop; EAddCand; ESend].
 Proof.
   repeat constructor.
-  - exists [], (dsf Offer 18 (fl true false true true true true true true)).
+  - exists [], (dsf Offer 24 (fl2 false true true true)).
     eexists; split; [reflexivity | discriminate].
-  - exists [], (dsf Offer 23 (fl true true false true true true true true)).
+  - exists [], (dsf Offer 26 (fl2 true true true false)).
     eexists; split; [reflexivity | discriminate].
-  - exists [], (dsf Offer 19 (fl true true true false true true true true)).
+  - exists [], (dsf Offer 25 (fl2 true false false true)).
     eexists; split; [reflexivity | discriminate].
-  - exists [], (dsf Offer 20 (fl true true true true false true true true)).
-    eexists; split; [reflexivity | discriminate].
-  - exists [], (dsf Offer 21 (fl true true true true true false true true)).
-    eexists; split; [reflexivity | discriminate].
-  - exists [], (dsf Offer 22 (fl true true true true true true false true)).
-    eexists; split; [reflexivity | discriminate].
-  - exists [OCreateOffer 16; OSetLocal (ds Offer 16)],
+  - exists [OCreateOffer 16 true; OSetLocal (ds Offer 16)],
            (dsf Answer 32 (fl true true true true true true true false)).
     eexists; split; [reflexivity | discriminate].
 Qed.
@@ -99,16 +136,33 @@ Theorem c03_local_full_refuted :
     curL (run ops) = None /\ curL n' = Some d /\
     curR n' = pendR (run ops) /\ events n' = [HaveRemoteOffer; Stable].
 Proof.
-  exists [OSetRemote (ds Offer 16); OCreateAnswer 32 false],
+  exists [OSetRemote (ds Offer 16); OCreateAnswer 32 false true],
          (dsf Answer 32 (fl true true true true true true true false)).
   eexists; eexists. repeat split; reflexivity.
 Qed.
 Print Assumptions c03_local_full_refuted.
 
+(* one witness per class on the local side; Gather: a connection whose ICE
+   agent cannot be created, given SetLocalDescription({offer, ""}) before any
+   CreateOffer (JSEP 5.4 substitutes the empty last offer) *)
+Theorem c03_local_classes_refuted :
+  Forall (fun e => exists ops d n',
+            step (run ops) (OSetLocal d) = (n', Err e) /\ st n' <> st (run ops))
+         [ESend; EGather].
+Proof.
+  repeat constructor.
+  - exists [OSetRemote (ds Offer 16); OCreateAnswer 32 false true],
+           (dsf Answer 32 (fl true true true true true true true false)).
+    eexists; split; [reflexivity | discriminate].
+  - exists [], (dsf Offer 0 (with_no_agent empty_flags false)).
+    eexists; split; [reflexivity | discriminate].
+Qed.
+Print Assumptions c03_local_classes_refuted.
+
 (* ---- the premises of the partial theorems are satisfiable, one error cause
    each, on a connection with an exchange in progress ---- *)
 Example c03_pre_errors_reachable :
-  let n := run [OCreateOffer 16; OSetLocal (ds Offer 16)] in
+  let n := run [OCreateOffer 16 true; OSetLocal (ds Offer 16)] in
   snd (step n (OSetLocal (ds Offer 99))) = Err EInvalidModification /\      (* not the last offer *)
   snd (step n (OSetLocal (ds Offer 16))) = Err EInvalidModification /\      (* invalid edge *)
   snd (step n (OSetLocal (dsf Rollback 0 empty_flags))) = Err EInvalidModification /\ (* JSEP 5.4 *)
@@ -116,7 +170,22 @@ Example c03_pre_errors_reachable :
   snd (step n (OSetRemote (dsf Answer 48
          {| parses := false; codecs_ok := true; all_mid := true; cands_ok := true;
             has_ufrag := true; has_pwd := true; has_fp := true; fp_two := true;
-            send_ok := true; has_media := true |}))) = Err EParse /\
+            send_ok := true; has_media := true;
+            addcand_ok := true; gather_ok := true; stop_ok := true |}))) = Err EParse /\
   snd (step (fst (step n OClose)) (OSetRemote (ds Answer 48))) = Err EInvalidState /\
   snd (step n (OSetRemote (ds Answer 48))) = Ok tt.
 Proof. cbn zeta. repeat split; reflexivity. Qed.
+
+(* the six classes the fix moved in front of setDescription: each is raised on
+   a fresh connection given an offer and leaves it exactly as it was (before
+   the fix each of these came with have-remote-offer and the offer pending) *)
+Example c03_validation_errors_unchanged :
+  Forall (fun ef : string * dflags =>
+            step (run []) (OSetRemote (dsf Offer 18 (snd ef))) = (run [], Err (fst ef)))
+    [(ENoMid, fl true false true true true true true true);
+     (ECandidate, fl true true false true true true true true);
+     (ENoUfrag, fl true true true false true true true true);
+     (ENoPwd, fl true true true true false true true true);
+     (ENoFingerprint, fl true true true true true false true true);
+     (EBadFingerprint, fl true true true true true true false true)].
+Proof. repeat constructor. Qed.
